@@ -187,7 +187,10 @@ Proof. exact deser_value_ordered_am_doc. Qed.
    a place where it does not get bound.  Full-strength statements (refuted by the witness below):
      outcome_of (gen_ser_value_ordered d db) = doc_ser_value_ordered_strict d db, and
      gen_typeck_value_ordered d db = Ok tt <-> doc_typeck_value_ordered_strict d db = true
-   ("the ordered mode accepts precisely the declared order").  Proved: outside the class. *)
+   ("the ordered mode accepts precisely the declared order").  Proved: outside the class.
+   NOTE: [doc_*_ordered_strict] is DEFINED as the longest-selection table with the class rejected, so
+   the three C16_ordered_strict_* statements are definitional corollaries of C16_ordered_am_*; they are
+   kept (and pinned) because the driver uses the strict tables, but carry no additional content. *)
 Theorem C16_ordered_strict_ser_value : forall d db, vd_snc d = false ->
   NoDup (map vf_name (nonskipped (vd_fields d))) -> ordered_am_drops d db = false ->
   outcome_of (gen_ser_value_ordered d db) = doc_ser_value_ordered_strict d db.
@@ -225,6 +228,12 @@ Theorem C16_roundtrip_ordered_value_precise : forall d db cells used, vd_snc d =
   gen_ser_value_ordered d db = Ok cells -> gen_typeck_value_ordered d db = Ok tt ->
   gen_deser_value_ordered d db cells = Ok (map (ordered_back used) (vd_fields d)).
 Proof. exact roundtrip_value_ordered_precise. Qed.
+
+(* the `[] => Err EPanic` branch of the ordered row type check (slice pattern with fewer columns than
+   fields) is not reachable: the column count is compared first *)
+Theorem C16_ordered_typeck_row_nopanic : forall ls cols,
+  gen_typeck_row_ordered false ls cols <> Err EPanic.
+Proof. exact (fun ls cols => proj2 (typeck_row_ordered_doc ls cols)). Qed.
 
 (* the underflow guard of remaining_count in by-name SerializeValue is never hit *)
 Theorem C16_ser_value_by_name_nopanic : forall d db,
@@ -414,6 +423,15 @@ Example C16_ex_ordered_am :
     = Accept [Some [0;0;0;0]; Some [99]].
 Proof. repeat split; vm_compute; reflexivity. Qed.
 
+(* String binds to ascii as well as to text; nothing else does *)
+Example C16_ex_ascii :
+  accepts RText DAscii = true /\ accepts ROptText DAscii = true /\ accepts RInt DAscii = false /\
+  accepts ROptInt DAscii = false /\ accepts RText DBigInt = false /\
+  doc_typeck_value_by_name ex_d [("x", DAscii); ("c", DInt)]%string = true /\
+  doc_typeck_value_by_name ex_d [("x", DText); ("c", DAscii)]%string = false /\
+  gen_ser_value_by_name ex_d [("c", DInt); ("x", DAscii)]%string = Ok [None; Some [97;98]].
+Proof. repeat split; vm_compute; reflexivity. Qed.
+
 Example C16_ex_ordered_am_class :
   ordered_am_drops ex_am [("b", DText); ("a", DInt)]%string = true /\
   ordered_am_drops ex_am [("a", DInt); ("b", DText)]%string = false /\
@@ -504,3 +522,4 @@ Print Assumptions C16_ordered_strict_deser_value.
 Print Assumptions C16_ordered_precise_refuted.
 Print Assumptions C16_roundtrip_ordered_value_precise.
 Print Assumptions C16_ser_value_by_name_nopanic.
+Print Assumptions C16_ordered_typeck_row_nopanic.
